@@ -126,6 +126,8 @@ package store
 //@   property C14 C01 C02 C04 C05 C06 C07
 //@   requires [wiring] s.db != nil
 //@   ensures [by-hash] err == nil ==> s.db.kvHas[dskey(KeyIdx(hexstr(val(hash))))] && h == le64dec(s.db.kv[dskey(KeyIdx(hexstr(val(hash))))])
+// ... and every indexed hash is found: the answer depends on the index record alone (not, say, on the recorded height)
+//@   ensures [finds-every-indexed-hash] !s.db.dsFaulty && s.db.kvHas[dskey(KeyIdx(hexstr(val(hash))))] && blen(s.db.kv[dskey(KeyIdx(hexstr(val(hash))))]) == 8 ==> err == nil
 
 //@ func (s *DefaultStore) UpdateState(ctx, state) (err)
 //@   property C14 C01 C02 C04 C05 C06 C07
